@@ -39,9 +39,86 @@ fn compiler_entry_points(ctx: &mut Ctx, src: &str) {
     ];
     for (name, f) in checks {
         ctx.stat("compiler_entry_calls");
+        ctx.begin(&format!("{name}({src:?})"));
         if let Err(msg) = catch(f) {
             let key = match name { "ast::Type::parse" => "parse-type-no-root-node", "FieldSet::parse" => "parse-selection-set-two-roots", _ => "compiler-parse-panic" };
             ctx.fail(key, &format!("{name}({src:?})"), &msg);
+        }
+    }
+}
+
+/// (audit G1) the compiler's parse methods with a recursion limit and / or a token limit set on the compiler's `Parser`
+fn compiler_with_limits(ctx: &mut Ctx, src: &str, tl: Option<usize>, rl: Option<usize>) {
+    use apollo_compiler::parser::Parser;
+    let schema = SCHEMA.with(|s| s.clone());
+    let mk = || { let mut p = Parser::new(); if let Some(r) = rl { p = p.recursion_limit(r); } if let Some(t) = tl { p = p.token_limit(t); } p };
+    let checks: Vec<(&str, Box<dyn Fn() + '_>)> = vec![
+        ("Parser::parse_ast", Box::new(|| { let _ = mk().parse_ast(src, "d.graphql"); })),
+        ("Parser::parse_schema", Box::new(|| { let _ = mk().parse_schema(src, "d.graphql"); })),
+        ("Parser::parse_executable", Box::new(|| { let _ = mk().parse_executable(&schema, src, "d.graphql"); })),
+        ("Parser::parse_mixed_validate", Box::new(|| { let _ = mk().parse_mixed_validate(src, "d.graphql"); })),
+        ("Parser::parse_type", Box::new(|| { let _ = mk().parse_type(src, "d.graphql"); })),
+        ("Parser::parse_field_set", Box::new(|| { let _ = mk().parse_field_set(&schema, apollo_compiler::name!("Query"), src, "d.graphql"); })),
+    ];
+    for (name, f) in checks {
+        ctx.stat("compiler_entry_calls_with_limits");
+        ctx.begin(&format!("{name}({src:?}) tl={tl:?} rl={rl:?}"));
+        if let Err(msg) = catch(f) {
+            let key = match name { "Parser::parse_type" => "parse-type-no-root-node", "Parser::parse_field_set" => "parse-selection-set-two-roots", _ => "compiler-parse-panic" };
+            ctx.fail(key, &format!("{name}({src:?}) tl={tl:?} rl={rl:?}"), &msg);
+        }
+    }
+}
+thread_local! {
+    static SCHEMA: apollo_compiler::validation::Valid<apollo_compiler::Schema> = apollo_compiler::Schema::parse_and_validate("type Query { a: Query b: Query f(x: Int): Query c: Int }", "s.graphql").unwrap();
+}
+
+/// (audit G1) the deterministic families of pfam.rs on all entry points and through the compiler
+fn families(ctx: &mut Ctx) {
+    use crate::pfam::*;
+    let rls = [500usize, 0, 1, 2, 3];
+    // lexical errors, an unterminated string, a stray backslash, a control character in every gap of one rich instance of every
+    // definition kind, under cycling limits; every 3rd also through the compiler (with and without limits)
+    let mut gaps = vec![];
+    for d in RICH { fill_gaps(d, &["é", "\"", "..", "\u{1}", "1.", "\\"], |s| gaps.push(s)); }
+    for (i, s) in gaps.iter().enumerate() {
+        let rl = rls[i % 5];
+        let tl = if i % 7 == 0 { Some(i % 23) } else { None };
+        one(ctx, "doc", tl, rl, s);
+        if i % 3 == 0 { compiler_entry_points(ctx, s); }
+        if i % 3 == 1 { compiler_with_limits(ctx, s, tl, Some(rl)); }
+    }
+    ctx.stat_n("family:lexical-error-in-every-gap", gaps.len() as u64);
+    // every combination of absent / empty / malformed optional parts of every definition kind, and every single-token deletion /
+    // duplication / swap of the rich instances: the trees the compiler's CST→AST conversion sees with each required child missing
+    let mut docs = definition_skeletons();
+    docs.extend(fill(VALUE_POS_CONST, VALUE_FILLERS));
+    docs.extend(fill(VALUE_POS_NOTCONST, VALUE_FILLERS));
+    docs.extend(fill(DESC_POS, DESC_FILLERS));
+    for d in RICH { docs.push(d.to_string()); token_edits(d, &["$", "\"s\"", "{"], |_, s| docs.push(s)); }
+    for (i, s) in docs.iter().enumerate() {
+        one(ctx, "doc", None, if i % 4 == 3 { i % 3 } else { 500 }, s);
+        compiler_entry_points(ctx, s);
+        if i % 4 == 0 { compiler_with_limits(ctx, s, if i % 8 == 0 { Some(i % 17) } else { None }, Some(i % 4)); }
+    }
+    ctx.stat_n("family:skeletons-and-token-edits", docs.len() as u64);
+    // the selection skeletons and nesting trees through the selection-set entry point (braced and bare), types through the type entry
+    let mut sels: Vec<String> = definition_skeletons().into_iter().filter(|s| s.starts_with('{')).collect();
+    sels.extend(selection_trees(3, 3));
+    let mut n = 0u64;
+    for (i, s) in sels.iter().enumerate() {
+        let bare = s.strip_prefix("{ ").and_then(|x| x.strip_suffix(" }")).unwrap_or(s).to_string();
+        for v in [s.clone(), bare, format!("{s} }}"), format!(" {s}")] {
+            let rl = rls[(i + n as usize) % 5];
+            one(ctx, "sel", if n % 9 == 0 { Some((n % 11) as usize) } else { None }, rl, &v);
+            if n % 2 == 0 { compiler_with_limits(ctx, &v, None, if n % 4 == 0 { Some(rl) } else { None }); }
+            n += 1;
+        }
+    }
+    ctx.stat_n("family:selection-entry", n);
+    for (i, t) in types(4).iter().enumerate() {
+        for v in [t.clone(), format!("{t} "), format!("{t} {t}"), format!("{t}]"), t.replace("Int", "é")] {
+            for rl in [500usize, 0, 1, 2, 3, 4] { one(ctx, "ty", if i % 5 == 0 { Some(i % 7) } else { None }, rl, &v); compiler_with_limits(ctx, &v, None, Some(rl)); }
         }
     }
 }
@@ -83,7 +160,33 @@ pub fn run(ctx: &mut Ctx) {
         let tl = if i % 5 == 0 { Some(ctx.rng.below(40)) } else { None };
         one(ctx, "doc", tl, rl, &src);
         if i % 50 == 0 { compiler_entry_points(ctx, &src); }
+        if i % 10 == 3 { compiler_with_limits(ctx, &src, tl, Some(rl)); }
     }
+    // (audit G1) inputs shaped like the other two entry points: generated selection sets (braced or bare) and types, mutated, with
+    // lexical junk, under small limits; through the parser and through the compiler
+    let n2 = if ctx.thorough { 30_000 } else { 3_000 };
+    for i in 0..n2 {
+        let (entry, base) = {
+            let mut g = G { r: &mut ctx.rng, depth: 0, cov: &mut cov };
+            if i % 3 != 2 {
+                let s = g.selection_set(0);
+                ("sel", if g.r.chance(1, 2) { s[1..s.len() - 1].to_string() } else { s })
+            } else { let t = g.ty(0); ("ty", if g.r.chance(1, 3) { format!("[{t}]") } else { t }) }
+        };
+        let mut src = if i % 2 == 0 { base } else { mutate(&mut ctx.rng, &base) };
+        if i % 4 == 1 {
+            let pcs = crate::gen::pieces(&src);
+            let at = ctx.rng.below(pcs.len() + 1);
+            let ins = *ctx.rng.pick(&["é", "\"", "..", " ", ",", "#c\n", "\u{feff}", "1.", "}", "]", "!"]);
+            src = pcs[..at].concat() + ins + &pcs[at..].concat();
+        }
+        let rl = if i % 3 == 0 { ctx.rng.below(5) } else { 500 };
+        let tl = if i % 5 == 0 { Some(ctx.rng.below(16)) } else { None };
+        one(ctx, entry, tl, rl, &src);
+        ctx.stat(&format!("shaped_inputs:{entry}"));
+        if i % 4 == 0 { compiler_with_limits(ctx, &src, tl, if i % 3 == 0 { Some(rl) } else { None }); }
+    }
+    families(ctx);
     for (k, v) in cov { ctx.stat_n(&format!("production:{k}"), v); }
     for s in repo_documents() { one(ctx, "doc", None, 500, &s); compiler_entry_points(ctx, &s); }
     for s in ["", "!", "é", " ", "[", "[[[", "a", "{", "\"", "..."] { compiler_entry_points(ctx, s); }
@@ -92,8 +195,55 @@ pub fn run(ctx: &mut Ctx) {
         for (open, close, pre, post) in [("{a", "}", "", ""), ("[", "]", "{a(x:", "1)}"), ("[", "]", "query($v:", "Int){a}")] {
             let src = format!("{pre}{}{}{post}", open.repeat(depth), close.repeat(depth));
             let src2 = src.clone();
+            ctx.begin(&format!("deep nesting: entry=doc depth {depth} of {open:?} in {pre:?}"));
             let h = std::thread::Builder::new().stack_size(2 * 1024 * 1024).spawn(move || run_parser("doc", None, 500, &src2).is_ok()).unwrap();
             match h.join() { Ok(true) => ctx.stat("deep_nesting_ok"), _ => ctx.fail("deep-nesting-panic", &format!("depth {depth} of {open}"), "panic or stack overflow at the default recursion limit") }
         }
+    }
+    // (audit G1) every construct that nests (object values, mixed list/object values, inline fragments with and without type condition,
+    // fields with arguments at every level, constant values in type-system positions), closed / unclosed / closers only, on all three
+    // entry points and through the compiler, at the default recursion limit
+    let deep: [(&str, &str, &str, &str, &str, &str); 14] = [
+        ("doc", "{a(x:", "{k:", "1", "}", ")}"), ("doc", "{a(x:", "[{k:", "1", "}]", ")}"), ("doc", "{a(x:", "{k:[", "1", "]}", ")}"), ("doc", "", "{...", "{a}", "}", ""), ("doc", "", "{...on T", "{a}", "}", ""),
+        ("doc", "", "{a(x:[1])@d(y:{k:1})", "", "}", ""), ("doc", "type T{f(a:T=", "[", "1", "]", "):T}"), ("doc", "input I{a:T=", "{k:", "1", "}", "}"), ("doc", "directive @d(a:", "[", "T", "]", ") on FIELD"),
+        ("doc", "extend schema @d(x:", "[{k:", "1", "}]", ")"), ("sel", "", "a{", "b", "}", ""), ("sel", "a(x:", "[", "1", "]", ")"), ("ty", "", "[", "A", "]!", ""), ("ty", " ", "[", "é", "]", " x"),
+    ];
+    for depth in [499usize, 500, 501, 3000] {
+        for (entry, pre, open, mid, close, post) in deep {
+            for shape in 0..3 {
+                let src = match shape { 0 => format!("{pre}{}{mid}{}{post}", open.repeat(depth), close.repeat(depth)), 1 => format!("{pre}{}", open.repeat(depth)), _ => format!("{pre}{mid}{}{post}", close.repeat(depth)) };
+                let label = format!("deep nesting: entry={entry} depth {depth} of {open:?} in {pre:?} shape {shape}");
+                ctx.begin(&label);
+                let (src2, e2) = (src.clone(), entry.to_string());
+                let h = std::thread::Builder::new().stack_size(2 * 1024 * 1024).spawn(move || {
+                    let ok = run_parser(&e2, None, 500, &src2).is_ok();
+                    let c = catch(|| { use apollo_compiler::parser::Parser; match e2.as_str() {
+                        "doc" => { let _ = Parser::new().parse_ast(&src2, "d.graphql"); }
+                        "sel" => { let s = SCHEMA.with(|s| s.clone()); let _ = Parser::new().parse_field_set(&s, apollo_compiler::name!("Query"), &src2, "d.graphql"); }
+                        _ => { let _ = Parser::new().parse_type(&src2, "d.graphql"); } } });
+                    ok && c.is_ok()
+                }).unwrap();
+                match h.join() { Ok(true) => ctx.stat("deep_nesting_ok"), _ => ctx.fail("deep-nesting-panic", &label, "panic or stack overflow at the default recursion limit") }
+            }
+        }
+    }
+    // long flat inputs (loops, not recursion): many siblings of every repeated construct
+    for (entry, pre, item, post) in [("doc", "{", " a", "}"), ("doc", "{a", " @d", "}"), ("doc", "{a(", "x:1 ", ")}"), ("doc", "{a(x:[", "1 ", "])}"), ("doc", "{a(x:{", "k:1 ", "})}"), ("doc", "", "scalar S ", ""),
+        ("doc", "type T{", "f:Int ", "}"), ("doc", "enum E{", "A ", "}"), ("doc", "union U=A", "|B", ""), ("doc", "type T implements I", "&J", ""), ("doc", "directive @d on FIELD", "|QUERY", ""),
+        ("doc", "query(", "$v:Int ", "){a}"), ("doc", "", "} ", ""), ("doc", "", "é", ""), ("sel", "", "a ", ""), ("ty", "A", "!", ""), ("ty", "A", " ,", "")] {
+        let src = format!("{pre}{}{post}", item.repeat(20_000));
+        let label = format!("long flat input: entry={entry} 20000 × {item:?} in {pre:?}");
+        ctx.begin(&label);
+        // on the same small stack as the deep inputs: a loop turned into recursion shows here
+        let e2 = entry.to_string();
+        let h = std::thread::Builder::new().stack_size(2 * 1024 * 1024).spawn(move || {
+            use apollo_parser::Parser;
+            catch(|| match e2.as_str() {
+                "doc" => { let t = Parser::new(&src).parse(); t.errors().len() + if e2.is_empty() { 0 } else { apollo_compiler::ast::Document::parse(src.as_str(), "d.graphql").is_ok() as usize } }
+                "sel" => Parser::new(&src).parse_selection_set().errors().len(),
+                _ => Parser::new(&src).parse_type().errors().len(),
+            }).is_ok()
+        }).unwrap();
+        match h.join() { Ok(true) => ctx.stat("long_flat_ok"), _ => ctx.fail("deep-nesting-panic", &label, "panic or stack overflow on a long flat input") }
     }
 }
